@@ -71,10 +71,10 @@ def build_net(net: Net) -> CRNHyperGraph:
     return H
 
 
-def gen_net(rng) -> Net:
-    n_sp = rng.randint(2, 6)
+def gen_net(rng, deep: bool = False) -> Net:
+    n_sp = rng.randint(4, 6) if deep else rng.randint(2, 6)
     species = [chr(ord("A") + i) for i in range(n_sp)]
-    n_rx = rng.randint(1, 5)
+    n_rx = rng.randint(3, 6) if deep else rng.randint(1, 5)
     style = rng.choice(["random", "random", "ring", "repeat", "reversible", "star"])
     net: Net = []
 
@@ -117,7 +117,7 @@ def gen_net(rng) -> Net:
                 cat = rng.choice(list(r))
                 p[cat] = r[cat]  # catalyst
             net.append({"id": None, "rule": rng.choice(["r", "r", "R1"]), "r": r, "p": p})
-    net = [rx for rx in net if rx["r"] or rx["p"]][:5]
+    net = [rx for rx in net if rx["r"] or rx["p"]][:(6 if deep else 5)]
     if not net:
         net = [{"id": None, "rule": "r", "r": {"A": 1}, "p": {"B": 1}}]
     return net
@@ -171,7 +171,8 @@ def neighbour_of(net: Net, rng) -> Net:
 
 def generate(seed: int, tier: str = "quick") -> Dict[str, Any]:
     rng = rng_for(seed, "c18", "gen")
-    net = gen_net(rng)
+    deep = tier == "thorough" and rng.random() < 0.4
+    net = gen_net(rng, deep)
     tm = twin_map(rng)
     cfg = {"net": net, "twin": twin_of(net, rng, tm), "nbr": neighbour_of(net, rng), "twin_map": tm,
            "persistent_objects": rng.random() < 0.7}
@@ -200,7 +201,7 @@ def generate(seed: int, tier: str = "quick") -> Dict[str, Any]:
 
     if faulty:
         ops.append({"op": "alloc", "s": s(), "p_reuse": rng.choice([0.3, 0.5, 0.5, 0.7, 1.0]), "pick": rng.choice(["lifo", "fifo", "rand"])})
-    for _ in range(rng.randint(3, 10)):
+    for _ in range(rng.randint(8, 20) if deep else rng.randint(3, 10)):
         if faulty and rng.random() < 0.45:
             ops.append(fault())
         if vary_flags and rng.random() < 0.4:
